@@ -5,6 +5,7 @@
 package c17
 
 import (
+	"bytes"
 	"fmt"
 
 	"go.lstv.dev/util/date"
@@ -182,7 +183,21 @@ func genRecord(t *core.Tape, ty int) Record {
 			// the object form as the library writes it, and shapes a peer could write: unit
 			// first, other keys around, upper-case keys (keys are case-insensitive)
 			v, u := s.Shorten()
-			switch t.Choose(5) {
+			switch t.Choose(11) {
+			case 5:
+				// what a careless peer writes: a key twice, a value that is no size at all, a number
+				// that does not fit (negative, fractional, exponent) with and without a unit
+				return Record{ty, RJSON, []byte(fmt.Sprintf(`{"value":%d,"unit":"%s","value":%d}`, v, u, v+1)), "size json object value twice"}
+			case 6:
+				return Record{ty, RJSON, []byte(fmt.Sprintf(`{"unit":"%s","value":%d,"UNIT":"B"}`, u, v)), "size json object unit twice"}
+			case 7:
+				return Record{ty, RJSON, []byte([...]string{"true", "false", "null", "[1]", `[{"value":1}]`}[t.Choose(5)]), "size json other token"}
+			case 8:
+				return Record{ty, RJSON, []byte([...]string{"-5", "1.5", "1e3", "1E400", "-0", "0.0", "18446744073709551616"}[t.Choose(7)]), "size json odd number"}
+			case 9:
+				return Record{ty, RJSON, []byte(fmt.Sprintf(`{"value":%s,"unit":"%s"}`, [...]string{"-5", "1.5", "0.5", "1e3", "1.0000001", "18446744073709551616"}[t.Choose(6)], u)), "size json object odd number"}
+			case 10:
+				return Record{ty, RJSON, []byte(fmt.Sprintf(`{"value":%s}`, [...]string{"-1", "2.5", "7", `"7"`, "null", "{}"}[t.Choose(6)])), "size json object without unit"}
 			case 1:
 				return Record{ty, RJSON, []byte(fmt.Sprintf(`{"unit":"%s","value":%d}`, u, v)), "size json object unit first"}
 			case 2:
@@ -221,12 +236,13 @@ const (
 	FCaseFlip
 	FSpace
 	FRune
+	FSepSwap
 	NumFaults
 )
 
-var faultNames = [...]string{"intact", "truncate", "bitflip", "bytesub", "insert", "delete", "doubled", "pad-over-limit", "empty", "foreign", "caseflip", "space", "rune"}
+var faultNames = [...]string{"intact", "truncate", "bitflip", "bytesub", "insert", "delete", "doubled", "pad-over-limit", "empty", "foreign", "caseflip", "space", "rune", "separators-swapped"}
 
-var interesting = [...]byte{'0', '9', '-', '.', '+', 'v', 'a', 'Z', ' ', '_', 0xa0, 0xc3, 0x00, 0xff, '"', '{', '}', ':', ',', 'M', 'i', 'B', 'k', '\n', 'e', 'E', 'x'}
+var interesting = [...]byte{'0', '9', '-', '.', '+', 'v', 'a', 'Z', ' ', '_', '/', ':', 0xa0, 0xc3, 0x00, 0xff, '"', '{', '}', ':', ',', 'M', 'i', 'B', 'k', '\n', 'e', 'E', 'x'}
 
 var runes = [...]string{"\u00e9", "\u00fc", "\u2013", "\u20ac", "\U0001F600", "\u00a0", "\u2028", "\ufeff", "\u0130", "\u212a", "\u00b5"}
 
@@ -314,6 +330,26 @@ func applyFault(t *core.Tape, f int, rec []byte, foreign func() []byte) []byte {
 			}
 		}
 		return append(out, b[i:]...)
+	case FSepSwap:
+		// another writer's convention: every occurrence of one punctuation byte of the record
+		// becomes another one (2024-02-03 -> 2024/02/03, 1.2.3-rc.1 -> 1_2_3-rc_1, ...)
+		var seps []byte
+		for _, c := range b {
+			if c < 0x80 && !(c >= '0' && c <= '9') && !(c >= 'a' && c <= 'z') && !(c >= 'A' && c <= 'Z') && bytes.IndexByte(seps, c) < 0 {
+				seps = append(seps, c)
+			}
+		}
+		if len(seps) == 0 {
+			return b
+		}
+		from := seps[t.Choose(len(seps))]
+		to := []byte{'/', '.', '-', ' ', ':', '_', ','}[t.Choose(7)]
+		for i, c := range b {
+			if c == from {
+				b[i] = to
+			}
+		}
+		return b
 	case FSpace:
 		// a run of one to three blanks (space, tab, NBSP byte) somewhere, often at an end
 		i := t.Choose(n + 1)
